@@ -14,6 +14,12 @@ for all arguments, that the generated definition equals the hand-written model f
  * source the translator has no rule and no pattern for is an error naming the source text (same consequence);
  * comments, docstrings, logging calls, exception messages, blank lines do not reach the output.
 
+Additions (Sing ties): a PARAMETER the body assigns to becomes `let mut p := p` at the top; the spec key
+`predeclare: [(name, LeanType, init)]` declares a `let mut` before the body (for a name first assigned inside a `try` /
+`if` block and read after it; the initial value is dead when every path assigns); a chained assignment `a = b = X`
+evaluates X once into a fresh name and assigns it to the targets from left to right; the spec key `final_return: text`
+ends a function that falls off its end with `return text` (the state threaded by the statement patterns).
+
 Pattern language: python source in which names starting with `__` are metavariables (`__A` matches any expression;
 a repeated metavariable must match structurally equal text). Templates are Lean text with `{A}` replaced by the
 translation of what `__A` matched (`{A!s}` = the python source text, as a Lean string literal). A template starting
@@ -150,7 +156,7 @@ def match(pat, node, binds):
         elif isinstance(a, ast.AST):
             if not isinstance(b, ast.AST) or not match(a, b, binds):
                 return False
-        elif a != b:
+        elif a != b or type(a) is not type(b):          # `1` and `1.0` (and `True`) are different literals
             return False
     return True
 
@@ -521,7 +527,17 @@ class Fn:
             return
         if isinstance(s, ast.Assign):
             if len(s.targets) != 1:
-                raise TranslationError('chained assignment: ' + src(s))
+                # chained assignment `a = b = X`: X is evaluated once, then assigned to the targets from left to right
+                rhs = self.expr_or_monadic(s.value)
+                self.chain_count = getattr(self, 'chain_count', 0) + 1
+                tmp = 'chain%d__' % self.chain_count
+                if rhs.startswith('←'):
+                    self.emit(ind, 'let %s ← %s' % (tmp, rhs[1:].strip()))
+                else:
+                    self.emit(ind, 'let %s := %s' % (tmp, rhs))
+                for t in s.targets:
+                    self.assign(ind, t, tmp)
+                return
             t = s.targets[0]
             if isinstance(t, ast.Subscript) and isinstance(t.value, ast.Name) and \
                     t.value.id in self.spec.get('dict_names', []):
@@ -787,6 +803,11 @@ class Fn:
             self.emit(1, 'let mut %s : %s' % (mangle(nm), init))
             self.mut.add(nm)
             self.declared.add(nm)
+        for nm, ty, init in self.spec.get('predeclare', []):
+            # a variable first assigned inside a `try` / `if` block and read after it: Lean needs it declared outside
+            self.emit(1, 'let mut %s : %s := %s' % (mangle(nm), ty, init))
+            self.mut.add(nm)
+            self.declared.add(nm)
         self.stmts(body, 1)
         if 'loop_state' in self.spec:
             self.emit(1, 'return %s' % self.state_tuple())
@@ -797,6 +818,9 @@ class Fn:
             self.emit(1, 'return none')
         elif 'returns' in self.spec:
             self.emit(1, 'return %s' % self.spec['returns'])
+        elif 'final_return' in self.spec:
+            # a function that returns None and works by mutating objects: the threaded state is its result
+            self.emit(1, 'return %s' % self.spec['final_return'])
         sig = self.spec['signature']
         head = 'def %s %s := do' % (self.spec['lean_name'], sig)
         out = [head] + self.lines
